@@ -8,6 +8,7 @@ package peering
 
 //@ type LinkBase
 //@   invariant wired [C13]: self.peering != nil && nonnil(self.conn)
+//@   invariant queues [C13]: self.sendQueueRegl != nil && self.sendQueuePrio != nil && cap(self.sendQueueRegl) == 1000 && cap(self.sendQueuePrio) == 100
 
 // ---- link frames (C05) ----------------------------------------------------------------------------
 // A link frame is  length(2) version(1) rate(1) seq(4) ack(4) | link data | MAC(16): at least 28 bytes.
@@ -55,3 +56,37 @@ package peering
 //@ func LinkBase.writeFrame
 //@   requires nonnil(f) && f.data != nil && f.builder != nil && f.dblReturnCheck == 0
 //@   callsite LinkBase.writeData sealed-when-link-encrypted [C05]: link.encSession == nil || (link.encSession.lastSealed == base(arg1) && link.encSession.lastSealedLen == len(arg1))
+
+// ---- sending (C10): frames reach a link only through the switch's forwardToLink, which enforces the TTL rule ----
+//@ func LinkBase.Send
+//@   callers switchr.Switch.forwardToLink
+//@   modifies nothing
+//@ func LinkBase.SendPriority
+//@   callers switchr.Switch.forwardToLink
+//@   modifies nothing
+
+//@ func newLinkBase
+//@   requires nonnil(conn) && peering != nil
+//@   ensures link [C13]: result != nil
+
+// ---- link registry (C16) ---------------------------------------------------------------------------
+// links and linksByLabel are guarded by linksLock. At Lock() every guarded field is forgotten and only the lock
+// invariant is assumed (another goroutine may have run); at Unlock() it must hold again. A fact read in an
+// earlier critical section (such as "no link to this peer yet") is therefore not available in the next one.
+//@ type Peering
+//@   guarded links, linksByLabel by linksLock
+//@   invariant registered-by-peer [C16]: forall ip netip.Addr :: has(self.links, ip) ==> (nonnil(self.links[ip]) && self.links[ip].peer == ip && has(self.linksByLabel, self.links[ip].switchLabel) && self.linksByLabel[self.links[ip].switchLabel] == self.links[ip])
+//@   invariant registered-by-label [C16]: forall l m.SwitchLabel :: has(self.linksByLabel, l) ==> (nonnil(self.linksByLabel[l]) && self.linksByLabel[l].switchLabel == l && has(self.links, self.linksByLabel[l].peer) && self.links[self.linksByLabel[l].peer] == self.linksByLabel[l])
+//@   invariant maps [C13]: self.links != nil && self.linksByLabel != nil
+
+//@ func Peering.GetLink
+//@   ensures found-is-registered [C16]: result != nil ==> nonnil(result) && result.peer == ip
+//@ func Peering.GetLinkByLabel
+//@   ensures found-is-registered [C16]: result != nil ==> nonnil(result) && result.switchLabel == label
+
+//@ func Peering.AddLink
+//@   requires nonnil(link) && link.switchLabel != 0
+//@ func Peering.RemoveLink
+//@   requires nonnil(link)
+//@ func Peering.copyLinksWithLocking
+//@   ensures copy: true
